@@ -12,7 +12,7 @@ open Rlbox
 theorem C05_inside (k : Nat) (f : ArithForm) (p : Nat) (n : Int) (s t : Nat)
     (h : ptrArith k f p n s = some t) : sameSbx k p t = true := by
   unfold ptrArith at h
-  by_cases h0 : f ≠ .index ∧ p = 0
+  by_cases h0 : p = 0
   · simp [h0] at h
   · simp only [h0, if_false] at h
     by_cases hf : f = .sub
@@ -31,9 +31,9 @@ theorem C05_inside_region (r : Region) (hr : r.wf) (f : ArithForm) (p : Nat) (n 
   (sameSbx_iff_contains r hr p t hp).1 (C05_inside r.k f p n s t h)
 
 /-- Adding to or subtracting from a null tainted pointer aborts. -/
-theorem C05_null_aborts (k : Nat) (f : ArithForm) (n : Int) (s : Nat) (hf : f ≠ .index) :
+theorem C05_null_aborts (k : Nat) (f : ArithForm) (n : Int) (s : Nat) :
     ptrArith k f 0 n s = none := by
-  simp [ptrArith, hf]
+  simp [ptrArith]
 
 /-- What C05 demands: the exact address if it lies inside the sandbox, abort otherwise. -/
 def Exact (r : Region) (f : ArithForm) (p : Nat) (n : Int) (s : Nat) : Prop :=
@@ -60,7 +60,7 @@ theorem C05_exact_partial (r : Region) (f : ArithForm) (p : Nat) (n : Int) (s : 
   have hp0 : p ≠ 0 := by omega
   have hna : n.natAbs ≤ n.natAbs * s := Nat.le_mul_of_pos_right _ hs
   -- the wrapped target
-  simp only [ptrArith, hp0, and_false, if_false]
+  simp only [ptrArith, hp0, if_false]
   -- characterise nU * s mod 2^64
   have key : ∀ t : Nat, (sameSbx r.k p t = true ↔ r.contains t) := fun t => sameSbx_iff_contains r hwf p t hpc
   by_cases hneg : n < 0
